@@ -1,2 +1,170 @@
-(* placeholder while the correspondence is being set up *)
-From DV Require Import Stamp.Stamp.
+(* C03 — the bus stamps the true sender; unique names are unique forever.
+   Only theorem statements closed by [exact]; proofs live in Proofs/Stamp*.v; the vocabulary
+   (sender_is, defined_only, same_content, trace_ok, emit_ok, names_ok, view, issued) is
+   Spec/StampSpec.v; the model is Stamp/Stamp.v.  See DESIGN.md section 4 (C03) and notes/C03.md.
+
+   All history theorems hold for EVERY environment: connection limit, machine id, security policy
+   towards the driver, the rest of the driver (any messages it builds through the message API), and
+   its byte-order conversions; routing is not even a parameter of the run, only of who receives an
+   emission (C03_every_delivery). *)
+From DV Require Import Lib.Base Wire.HeaderEdit Stamp.Stamp Spec.StampSpec Gen.StampTables
+  Proofs.StampFields Proofs.StampNames Proofs.StampInv Proofs.StampMain Proofs.StampTie.
+From Coq Require Import ZArith.
+Local Open Scope N_scope.
+
+(* ---------------- one message: whatever the client put on the wire -------------------------------- *)
+(* forged SENDER anywhere in the field array, any unknown field codes with any payload, CONTAINER_INSTANCE *)
+Theorem C03_stamp_sender : forall n m, wire_ok m -> sender_is (stamp n m) n.
+Proof. exact stamp_sender. Qed.
+Print Assumptions C03_stamp_sender.
+
+Theorem C03_stamp_clean : forall n m, wire_ok m -> defined_only (stamp n m).
+Proof. exact stamp_defined_only. Qed.
+Print Assumptions C03_stamp_clean.
+
+Theorem C03_stamp_intact : forall n m, same_content m (stamp n m).
+Proof. exact stamp_same_content. Qed.
+Print Assumptions C03_stamp_intact.
+
+(* two messages that differ only in SENDER, unknown fields and CONTAINER_INSTANCE are stamped alike *)
+Theorem C03_forged_irrelevant : forall n m1 m2,
+  wire_ok m1 -> wire_ok m2 ->
+  filter (fun f => (sf_code f <=? 9) && negb (is_code 7 f)) (s_fields m1) =
+  filter (fun f => (sf_code f <=? 9) && negb (is_code 7 f)) (s_fields m2) ->
+  filter (fun f => negb (is_code 7 f)) (s_fields (stamp n m1)) = filter (fun f => negb (is_code 7 f)) (s_fields (stamp n m2)) /\
+  filter (is_code 7) (s_fields (stamp n m1)) = filter (is_code 7) (s_fields (stamp n m2)).
+Proof. exact forged_irrelevant. Qed.
+Print Assumptions C03_forged_irrelevant.
+
+(* ---------------- the sender clause over all histories ---------------------------------------------- *)
+(* The literal property (strict = true: every emitted message names its true origin's unique name or
+   org.freedesktop.DBus) together with the unique-name clause. *)
+Definition C03_full_statement : Prop := full_statement.
+
+(* Proved: the same with the two exception classes spelled out in Spec.StampSpec.emit_ok:
+   (1) F13: replies built by libdbus on the daemon's end (origin OLocal) carry no SENDER; they exist only
+       for a message without DESTINATION that is a method call or names org.freedesktop.DBus.Peer, and
+       go to the writer only (scope SSelf);
+   (2) what a connection without a unique name writes is shown to monitors only, under ":not.active.yet". *)
+Theorem C03_sender_partial :
+  forall max_completed machine_id send_allowed driver reads_args on_disconnect,
+    (forall b c m, Forall dmsg_wf (driver b c m)) ->
+    (forall b c, Forall dmsg_wf (on_disconnect b c)) ->
+    forall h, Forall event_ok h ->
+      trace_ok false (trace_of max_completed machine_id send_allowed driver reads_args on_disconnect h).
+Proof. exact sender_partial. Qed.
+Print Assumptions C03_sender_partial.
+
+Theorem C03_every_delivery :
+  forall max_completed machine_id send_allowed driver reads_args on_disconnect
+         (route matches : conn -> smsg -> list conn) (bcast : smsg -> list conn) (monitors : list conn),
+    (forall b c m, Forall dmsg_wf (driver b c m)) ->
+    (forall b c, Forall dmsg_wf (on_disconnect b c)) ->
+    forall h, Forall event_ok h ->
+    forall pre o s m' post r,
+      trace_of max_completed machine_id send_allowed driver reads_args on_disconnect h = pre ++ TEmit o s m' :: post ->
+      In r (recipients route matches bcast monitors s m') ->
+      emit_ok false (view pre) (last_recv pre) o s m'.
+Proof. exact every_delivery. Qed.
+Print Assumptions C03_every_delivery.
+
+(* the literal statement fails: witness = connect, then a method call without DESTINATION (F13) *)
+Theorem C03_sender_refuted : ~ C03_full_statement.
+Proof. exact sender_refuted. Qed.
+Print Assumptions C03_sender_refuted.
+
+(* the placeholder of exception (2) and the driver's name are not names the bus can hand out *)
+Theorem C03_placeholder_is_no_name : forall a b, unique_name a b <> not_active /\ unique_name a b <> drv_name.
+Proof. exact (fun a b => conj (not_active_not_minted a b) (drv_name_not_minted a b)). Qed.
+Print Assumptions C03_placeholder_is_no_name.
+
+(* ---------------- the unique-name clause ----------------------------------------------------------- *)
+(* pairwise distinct over the whole history (so never reused after a disconnect), begin with ':',
+   given only to a live connection that has none *)
+Theorem C03_unique :
+  forall max_completed machine_id send_allowed driver reads_args on_disconnect,
+    (forall b c m, Forall dmsg_wf (driver b c m)) ->
+    (forall b c, Forall dmsg_wf (on_disconnect b c)) ->
+    forall h, Forall event_ok h ->
+      names_ok (trace_of max_completed machine_id send_allowed driver reads_args on_disconnect h).
+Proof. exact names_unique. Qed.
+Print Assumptions C03_unique.
+
+(* exactly: the k-th name handed out is ":1.k" *)
+Theorem C03_names_exact :
+  forall max_completed machine_id send_allowed driver reads_args on_disconnect,
+    (forall b c m, Forall dmsg_wf (driver b c m)) ->
+    (forall b c, Forall dmsg_wf (on_disconnect b c)) ->
+    forall h, Forall event_ok h ->
+      let tr := trace_of max_completed machine_id send_allowed driver reads_args on_disconnect h in
+      issued tr = map name_k (seq 0 (length (issued tr))).
+Proof. exact names_exact. Qed.
+Print Assumptions C03_names_exact.
+
+Theorem C03_name_form_injective : forall a b a' b',
+  (0 <= a)%Z -> (0 <= b)%Z -> (0 <= a')%Z -> (0 <= b')%Z -> unique_name a b = unique_name a' b' -> a = a' /\ b = b'.
+Proof. exact unique_name_inj. Qed.
+Print Assumptions C03_name_form_injective.
+
+(* the bound: the run cannot stop (signed overflow of the minor counter, the only fault reachable from
+   a fresh bus) before INT_MAX messages have been written *)
+Theorem C03_no_fault_below_bound :
+  forall max_completed machine_id send_allowed driver reads_args on_disconnect,
+    (forall b c m, Forall dmsg_wf (driver b c m)) ->
+    (forall b c, Forall dmsg_wf (on_disconnect b c)) ->
+    forall h, Forall event_ok h -> (sends h < INT_MAX)%Z ->
+      fault_of max_completed machine_id send_allowed driver reads_args on_disconnect h = None.
+Proof. exact no_fault_below_bound. Qed.
+Print Assumptions C03_no_fault_below_bound.
+
+(* a registered connection that says Hello again gets an error and nothing else happens *)
+Theorem C03_second_hello_refused :
+  forall max_completed machine_id send_allowed driver reads_args on_disconnect b c n m,
+    lookup c (b_conns b) = Some (Some n) ->
+    str_field m F_DESTINATION = Some drv_name ->
+    is_call (stamp n m) drv_name mem_hello = true ->
+    exists e, In e [err_access; err_failed; err_args] /\
+      step max_completed machine_id send_allowed driver reads_args on_disconnect b (ESend c m) =
+      Ok b [TRecv c m; TEmit (OClient c) SMonitors (stamp n m); error_reply b c (stamp n m) e].
+Proof. exact second_hello_refused. Qed.
+Print Assumptions C03_second_hello_refused.
+
+(* ---------------- tie to the C text (tables regenerated from /repo on every run) --------------------- *)
+Theorem C03_mint_matches_c : forallb sample_ok cuc_samples = true.
+Proof. exact mint_matches_c. Qed.
+Print Assumptions C03_mint_matches_c.
+
+Theorem C03_constants_match_c : INT_MAX = c_int_max /\ drv_name = c_service_dbus /\ not_active = c_not_active.
+Proof. exact (conj int_max_matches_c (conj drv_name_matches_c not_active_matches_c)). Qed.
+Print Assumptions C03_constants_match_c.
+
+(* ---------------- non-vacuity --------------------------------------------------------------------- *)
+Example C03_ex_hypotheses_satisfiable : Forall event_ok demo_hist /\ Forall event_ok f13_hist.
+Proof. exact (conj demo_hist_ok f13_hist_ok). Qed.
+
+(* three Hellos (one refused in between), a disconnect and a reconnect: :1.0, :1.1, :1.2 *)
+Example C03_ex_names : issued (env_run demo_hist) = [name0; name1; [58;49;46;50]].
+Proof. exact demo_names. Qed.
+
+(* a signal with SENDER org.freedesktop.DBus forged in first position, unknown field 200 and
+   CONTAINER_INSTANCE arrives with sender :1.1 and without the two foreign fields *)
+Example C03_ex_forwarded :
+  In (TEmit (OClient 1) (SRouted 1)
+        (mkSMsg true 4 0 7
+           [mkSField 7 (TBasic 115) (VStr 115 name1);
+            mkSField 1 (TBasic 111) (VStr 111 [47;120]); mkSField 2 (TBasic 115) (VStr 115 [116;46;73]);
+            mkSField 3 (TBasic 115) (VStr 115 [77]); mkSField 6 (TBasic 115) (VStr 115 name0)] [] []))
+     (env_run demo_hist).
+Proof. exact demo_forwarded. Qed.
+
+Example C03_ex_placeholder :
+  env_run [EConnect 0; ESend 0 forged_msg] =
+  [TConn 0; TRecv 0 forged_msg; TEmit (OClient 0) SMonitors (stamp not_active forged_msg); TGone 0].
+Proof. exact demo_placeholder. Qed.
+
+(* the refutation witness is the replayed byte string, and its answer has no SENDER *)
+Example C03_ex_f13 :
+  spec_decode_message f13_bytes = Some (f13_msg, 48) /\
+  env_run f13_hist = [TConn 0; TRecv 0 f13_msg; TEmit OLocal (SSelf 0) (new_error (scrub f13_msg) err_unknown_method [])] /\
+  has_no_sender (new_error (scrub f13_msg) err_unknown_method []).
+Proof. exact (conj f13_msg_is_the_replay (conj f13_trace f13_reply_has_no_sender)). Qed.
